@@ -47,7 +47,12 @@ where
         expr: v1beta0::Expression,
     ) -> Result<v1beta0::Expression, crate::reduce::Error> {
         match expr {
-            v1beta0::Expression::EvalCompiler(op) => Ok(self.reduce_op(*op)?),
+            v1beta0::Expression::EvalCompiler(op) => {
+                // operands that are already available (e.g. an applied argument) may still be
+                // wrapped in unreduced nodes; fold them before handing the op to the compiler
+                let op = crate::reduce::Apply::reduce(*op)?;
+                Ok(self.reduce_op(op)?)
+            }
             _ => Ok(expr),
         }
     }
